@@ -136,11 +136,15 @@ TEXT = {
            "operation refines the abstract sequence (append appends or is refused unchanged; RemoveGTE truncates; RemoveLTE drops whole segments up to "
            "CanLTE and never beyond the index; Reset; reopen); Get/GetN/Prev/Last/Count/Contains agree with the sequence, GetN concatenates across "
            "segments, and a view's Get/GetN are unchanged by any later appends. The concurrent-reader clause is proved functionally (reads depend only "
-           "on data no append changes); visibility under the Go memory model is outside any Gallina model and is named as such.",
+           "on data no append changes); visibility under the Go memory model is outside any Gallina model and is named as such. Byte level (Props/C13_bytes.v, "
+           "SegLog/Segment.v): the file layout of a segment (slots growing down from the end, header, data region) is modelled and proved: under the "
+           "available() test append never lets data and offset table overlap and changes no earlier entry, get returns exactly the appended bytes "
+           "(also across entries), removeGTE and reopening recover exactly the entries the header covers, and the entry-level arithmetic agrees with it; "
+           "raw segment files of the real log are compared with the entries read from them on sampled steps.",
   "design_ref": "DESIGN.md 4.2, 5 (C13)",
-  "note": "Trusted: Coq kernel + vm_compute; Go harness and state dump; byte-level layout of a segment (offset table arithmetic) is covered by the state "
-          "dump reading the real table, not by a theorem. Not modelled: I/O errors, mmap/munmap, goroutine interleaving.",
-  "technique": "Coq refinement proof (entry-level model -> abstract sequence) + per-step differential correspondence with the real log package",
+  "note": "Trusted: Coq kernel + vm_compute; Go harness and state dump (the dump reads entries through the real offset table; the raw file is checked "
+          "against them by b_matches_wf). Not modelled: I/O errors, mmap/munmap, goroutine interleaving.",
+  "technique": "Coq refinement proofs (byte-level segment -> entry-level log -> abstract sequence) + per-step differential correspondence with the real log package",
  },
  "C18": {
   "level": "Machine-checked proof (Coq, no axioms) that for every value of every message/entry/Node/Config/snapshot label/Replication/Info "
